@@ -239,4 +239,16 @@ def maxCands (g : Gram) (a : Auto) (t : LATab) : Nat :=
     let cs := cands g a t q
     (List.range g.nSyms).foldl (fun m s => max m (cs.filter (·.1 == s)).length) m) 0
 
+/-- the nullable and FIRST tables `lalr` uses (exposed so that the driver can check them with the
+    verified closedness certificate `Y.setsClosed`) -/
+def sets (g : Gram) : Option (Array Bool × Array (List Nat)) :=
+  let nl0 : Array Bool := Array.replicate g.nSyms false
+  match iter (nullableStep g) (g.rules.size + 2) nl0 with
+  | none => none
+  | some nl =>
+    let f0 : Array (List Nat) := (Array.range g.nSyms).map fun s => if g.isNT s then [] else [s]
+    match iter (firstStep g nl) (g.nSyms * g.nSyms + 2) f0 with
+    | none => none
+    | some first => some (nl, first)
+
 end Core
